@@ -172,9 +172,9 @@ def explore(
                 status = VerificationStatus.UNKNOWN
                 if len(out["unknown_reasons"]) < 5:
                     ctx = e.__context__
-                    detail = ""
+                    detail = " @ " + "".join([f for f in traceback.format_tb(e.__traceback__) if "/crosshair/" not in f][-4:])[-900:]
                     if ctx is not None:
-                        detail = " <- " + "".join(traceback.format_exception(type(ctx), ctx, ctx.__traceback__))[-1200:]
+                        detail += " <- " + "".join(traceback.format_exception(type(ctx), ctx, ctx.__traceback__))[-1200:]
                     out["unknown_reasons"].append(f"{type(e).__name__}: {e}{detail}")
             except NotDeterministic as e:
                 out["unknown"] += 1
